@@ -39,6 +39,7 @@ class Check(object):
         self.scratch = tlc.make_scratch(pid)
         self.findings = [f for f in load_findings() if f.get("property") == pid and f.get("status") == "known"]
         self.violations = []      # unlisted
+        self._vsigs = {}
         self.known_hits = {}      # finding id -> count
         self.states = 0
         self.transitions = 0
@@ -85,14 +86,19 @@ class Check(object):
             if all(signature.get(k) == v for k, v in fs.items()):
                 self.known_hits[f["id"]] = self.known_hits.get(f["id"], 0) + 1
                 return False
+        k = canon(signature)
+        if k in self._vsigs:
+            self._vsigs[k][1] += 1
+            self.violations.append((signature, self._vsigs[k][0]))
+            return True
         digest = hashlib.sha1(canon([signature, detail]).encode()).hexdigest()[:12]
         d = os.path.join(VERIF, "replays", self.pid)
         os.makedirs(d, exist_ok=True)
         path = os.path.join(d, digest + ".json")
-        if len(self.violations) < 25:
-            with open(path, "w") as f:
-                json.dump({"property": self.pid, "stage": stage, "signature": signature, "detail": detail},
-                          f, indent=1, sort_keys=True, default=str)
+        with open(path, "w") as f:
+            json.dump({"property": self.pid, "stage": stage, "signature": signature, "detail": detail},
+                      f, indent=1, sort_keys=True, default=str)
+        self._vsigs[k] = [path, 1]
         self.violations.append((signature, path))
         return True
 
@@ -132,13 +138,11 @@ class Check(object):
         for fid, n in sorted(self.known_hits.items()):
             f = [x for x in self.findings if x["id"] == fid][0]
             print("KNOWN-FINDING: property=%s %s [%s, %d case(s)]" % (self.pid, f["what"], fid, n))
-        seen = set()
-        for sig, path in self.violations:
-            k = canon(sig)
-            if k in seen:
-                continue
-            seen.add(k)
-            print("VIOLATION property=%s replay=%s  # %s" % (self.pid, path, canon(sig)[:300]))
+        for i, (k, (path, n)) in enumerate(sorted(self._vsigs.items())):
+            if i >= 40:
+                print("... %d more distinct violation signatures (see evidence/replays)" % (len(self._vsigs) - 40))
+                break
+            print("VIOLATION property=%s replay=%s  # x%d %s" % (self.pid, path, n, k[:300]))
         if self.machinery_errors:
             for m in self.machinery_errors:
                 print("MACHINERY-ERROR property=%s %s" % (self.pid, m), file=sys.stderr)
